@@ -440,6 +440,24 @@ func (c *Ctx) run() {
 	fr := &Frame{fn: fn, vals: map[ssa.Value]Val{}, specVars: map[string]TV{}}
 	c.topFrame = fr
 	con := c.contract
+	if con != nil && len(con.Loops) > 0 {
+		// every loop clause must bind to a loop of the body (a refactoring that removes an annotated loop must not
+		// silently drop its obligations)
+		have := map[int]bool{}
+		for _, li := range analyzeCFG(fn).loops {
+			have[li.ordinal] = true
+		}
+		var ords []int
+		for n := range con.Loops {
+			ords = append(ords, n)
+		}
+		sort.Ints(ords)
+		for _, n := range ords {
+			if !have[n] {
+				c.unsupportedf("the contract has clauses for loop %d, but the body of %s has %d loop(s)", n, c.key, len(have))
+			}
+		}
+	}
 	c.emitAxioms(st)
 	for i, p := range fn.Params {
 		v := c.havocVal("p_"+p.Name(), p.Type())
